@@ -1,6 +1,7 @@
 package world
 
 import (
+	"os"
 	"bytes"
 	"context"
 	"encoding/base64"
@@ -108,7 +109,11 @@ func (c *Client) guard(r *Res, f func()) {
 			r.OK = false
 			r.Code = "PANIC"
 			c.S.Panicked = true
-			c.S.Violate("C14.panic", "handler", "handler panicked: %v\n%s", p, PanicFrames())
+			frames := PanicFrames()
+			// also on stderr: if the dead handler held the cache mutex the run
+			// may never complete, and the driver classifies from the log
+			fmt.Fprintf(os.Stderr, "verif: handler panic: %v | %s\n", p, strings.ReplaceAll(frames, "\n", " < "))
+			c.S.Violate("C14.panic", "handler", "handler panicked: %v\n%s", p, frames)
 		}
 		r.Ret = c.S.Now()
 	}()
